@@ -215,4 +215,29 @@ CHECKS = {
         "floors": {"has-error-event": 0.2, "stop-with-unreceived-events": 0.1},
         "assumptions": ["the relay goroutine is the only asynchronous party; waits on it are bounded by a 10 s deadline and never decide alone"],
     },
+    "C19": {
+        "level": "exploration",
+        "rule": "two generators. (a) whole-schema objects: rapid.MakeCustom reflects over every field of apps/v1 StatefulSet and of the Advanced StatefulSet "
+                "(metadata incl. managedFields, full PodTemplateSpec, claim templates, status), nil vs empty collections and nil vs non-nil optional "
+                "pointers included, with overrides that keep values JSON-representable (second-precision times, no pointer to a zero Time / empty "
+                "FieldsV1, well-formed quantities incl. non-canonical ones, consistent IntOrString, valid UTF-8 incl. non-ASCII). Oracles: "
+                "built-in -> Advanced -> built-in and Advanced -> built-in -> Advanced are the identity on modelled fields under Semantic.DeepEqual "
+                "(unmodelled built-in fields zeroed), apiVersion/kind as stated, conversion never fails nor mutates its input; list conversion keeps "
+                "length and order and equals item-wise single conversion; defaulting twice = once (semantically, and byte-wise on the template JSON); "
+                "a defaulted object written through the hijack client (Create/Get/Update/UpdateStatus/List/Patch on fakes) reads back equal and "
+                "re-submitting it leaves the stored template bytes unchanged. (b) annotation codecs over nil/non-nil annotation maps, slot sets over "
+                "all of int32, pre-existing malformed values: Get(Set(S))=S, Add=union, empty/nil clears, other annotations untouched, same for the "
+                "pause flag. Non-trivial = (a) object with >= 10 populated fields incl. an empty-but-non-nil collection, (b) non-empty slot set with "
+                "other annotations or a nil map; distinct by object shape / case",
+        "legs": [
+            {"test": "TestC19", "quick": {"checks": 480, "shards": 8}, "thorough": {"checks": 48000, "shards": 16}},
+            {"test": "TestC19Ann", "quick": {"checks": 20000}, "thorough": {"checks": 1600000, "shards": 16}},
+            {"test": "FuzzC19", "kind": "fuzz", "thorough": {"seconds": 180}},
+        ],
+        "floors": {"object-with->=10-populated-fields-and-an-empty-collection": 0.005, "annotation-codec-case": 0.5},
+        "timeout": {"quick": 1500, "thorough": 14400},
+        "assumptions": ["equality is apiequality.Semantic.DeepEqual (nil == empty collection, quantities by value, times by instant)",
+                        "values that JSON cannot carry (pointer to zero Time, pointer to empty FieldsV1, sub-second times, invalid UTF-8) are outside the domain",
+                        "the API server behind the hijack client is client-go's fake object tracker"],
+    },
 }
